@@ -10,13 +10,26 @@ use stateright::{Checker, Model, Property};
 use std::sync::atomic::{AtomicU64, Ordering};
 use std::sync::{Arc, Mutex};
 
+const STATUSES: [RadialStatus; 6] = [
+    RadialStatus::IntermediateRadialData,
+    RadialStatus::ElevationStart,
+    RadialStatus::ElevationEnd,
+    RadialStatus::VolumeScanStart,
+    RadialStatus::VolumeScanEnd,
+    RadialStatus::ElevationStartVCPFinal,
+];
+
 pub fn radial(ts: i64, az: u16, elev: u8) -> Radial {
+    radial_s(ts, az, elev, 0)
+}
+
+pub fn radial_s(ts: i64, az: u16, elev: u8, status: usize) -> Radial {
     Radial::new(
         ts,
         az,
         az as f32 * 0.5,
         0.5,
-        RadialStatus::IntermediateRadialData,
+        STATUSES[status % 6],
         elev,
         elev as f32 * 0.5,
         None,
@@ -29,11 +42,34 @@ pub fn radial(ts: i64, az: u16, elev: u8) -> Radial {
     )
 }
 
+thread_local! {
+    /// status pattern applied by radials_for: status of radial i = pattern[i % len]
+    static STATUS_PATTERN: std::cell::RefCell<Vec<usize>> = const { std::cell::RefCell::new(Vec::new()) };
+}
+
 fn radials_for(word: &[u8]) -> Vec<Radial> {
-    word.iter()
-        .enumerate()
-        .map(|(i, e)| radial(1000 + i as i64, (i % 720) as u16 + 1, *e))
-        .collect()
+    STATUS_PATTERN.with(|p| {
+        let p = p.borrow();
+        word.iter()
+            .enumerate()
+            .map(|(i, e)| radial_s(1000 + i as i64, (i % 720) as u16 + 1, *e, if p.is_empty() { 0 } else { p[i % p.len()] }))
+            .collect()
+    })
+}
+
+/// check a word under every status pattern of a small family (status is independent of elevation)
+fn check_word_all_statuses(ctx: &Ctx, word: &[u8]) -> &'static str {
+    let patterns: Vec<Vec<usize>> = vec![vec![], vec![1], vec![0, 1], vec![2, 1, 0], vec![3, 0, 0, 4], vec![5, 0], vec![0, 0, 1, 2]];
+    let mut out = "ok";
+    for p in patterns {
+        STATUS_PATTERN.with(|sp| *sp.borrow_mut() = p);
+        let o = check_word(ctx, word, false);
+        if o != "ok" {
+            out = o;
+        }
+    }
+    STATUS_PATTERN.with(|sp| sp.borrow_mut().clear());
+    out
 }
 
 /// Reference model: maximal runs of equal elevation number, as (label, [timestamps]).
@@ -189,7 +225,11 @@ impl Model for GroupModel {
     }
     fn properties(&self) -> Vec<Property<Self>> {
         vec![Property::always("sweeps agree with reference grouping", |m: &GroupModel, s: &Vec<u8>| {
-            let o = check_word(m.ctx, s, true);
+            let mut o = check_word(m.ctx, s, true);
+            if s.len() <= 6 && o == "ok" {
+                // radial status (and hence any other radial field) varies independently of elevation
+                o = check_word_all_statuses(m.ctx, s);
+            }
             m.checked.fetch_add(1, Ordering::Relaxed);
             let mut st = m.outcomes.lock().unwrap_or_else(|e| e.into_inner());
             st.eval();
@@ -355,6 +395,7 @@ pub fn run(ctx: &'static Ctx) -> (&'static str, Value, Vec<&'static str>) {
     }
     long_inputs.push(sails);
     for w in &long_inputs {
+        let _ = check_word_all_statuses(ctx, w);
         let o = check_word(ctx, w, false);
         stats.eval();
         stats.outcome(o);
@@ -402,7 +443,7 @@ pub fn run(ctx: &'static Ctx) -> (&'static str, Value, Vec<&'static str>) {
     stats = stats.merge(merged);
 
     let mut cov = stats.coverage(
-        "stateright BFS+DFS over elevation words (every word over each alphabet up to the depth); invariant runs the real Sweep::from_radials in every state and compares with a reference grouping, plus split-differential from non-initial states; merge: full product of azimuth-word pairs x {same,different} elevation. non-trivial = word with >=2 runs, or merge with >=2 radials; distinct by hash of the word/pair",
+        "stateright BFS+DFS over elevation words (every word over each alphabet up to the depth); invariant runs the real Sweep::from_radials in every state and compares with a reference grouping, plus split-differential from non-initial states; every word of length <= 6 and every long input is also checked under 7 radial-status patterns that vary independently of the elevation number; merge: full product of azimuth-word pairs x {same,different} elevation. non-trivial = word with >=2 runs, or merge with >=2 radials; distinct by hash of the word/pair",
         true,
         json!({"models": model_reports, "merge_word_len": maxlen, "merge_alphabet": [1,2,3]}),
     );
